@@ -1,6 +1,6 @@
 #!/usr/bin/env python3
 """Stores the confirmed seeded changes under /verif/seeded/<ID>-<k>/ from the deliveries in /tmp/seed-out and the
-verification logs written by run_seeds.sh.  usage: store_seeds.py FINAL_LOG [EARLIER_LOG ...]"""
+verification logs written by run_seeds.sh.  usage: store_seeds.py [--src DIR] [--offset N] FINAL_LOG [EARLIER_LOG ...]   (round 3: --src /tmp/seed-out3 --offset 2)"""
 import json, os, re, shutil, sys
 V = os.path.dirname(os.path.dirname(os.path.abspath(__file__)))
 SRC = "/tmp/seed-out"
@@ -48,7 +48,14 @@ def summarise(seed, checks):
     return own, others
 
 def main():
-    logs = [parse_log(p) for p in sys.argv[1:]]
+    global SRC
+    args = sys.argv[1:]
+    offset = 0
+    while args and args[0].startswith("--"):
+        if args[0] == "--src": SRC = args[1]; args = args[2:]
+        elif args[0] == "--offset": offset = int(args[1]); args = args[2:]
+        else: raise SystemExit("unknown option " + args[0])
+    logs = [parse_log(p) for p in args]
     final, earlier = logs[0], logs[1:]
     os.makedirs(os.path.join(V, "seeded"), exist_ok=True)
     n = 0
@@ -60,7 +67,8 @@ def main():
               and f.get("crate_tests_with_patch", "").endswith("failed 0"))
         if not ok:
             print("NOT CONFIRMED, skipped:", seed, f.get("demo_without_patch"), f.get("demo_with_patch"), f.get("crate_tests_with_patch")); continue
-        d = os.path.join(V, "seeded", seed)
+        name = "%s-%d" % (pid, int(k) + offset)
+        d = os.path.join(V, "seeded", name)
         os.makedirs(d, exist_ok=True)
         shutil.copyfile(os.path.join(src, "patch_%s.diff" % k), os.path.join(d, "patch.diff"))
         shutil.copyfile(os.path.join(src, "demo_%s.rs" % k), os.path.join(d, "demo.rs"))
@@ -71,7 +79,7 @@ def main():
             if seed in e and e[seed]["checks"]:
                 first = summarise(seed, e[seed]["checks"])
         meta = dict(
-            property=pid, seed=seed, summary=m.get("summary", ""), needs_to_manifest=m.get("needs_to_manifest", ""),
+            property=pid, seed=name, summary=m.get("summary", ""), needs_to_manifest=m.get("needs_to_manifest", ""),
             written_by="a sub-agent that saw only the property text and a scratch worktree of /repo (nothing from /verif)",
             confirmed=dict(demo_without_patch=f.get("demo_without_patch"), demo_with_patch=f.get("demo_with_patch"),
                            crate_tests_with_patch=f.get("crate_tests_with_patch")),
